@@ -194,6 +194,31 @@ def _f_intervals(ctx, x):
                           _snap(ctx, I.extend_to_size(iv, 2, 6)), _snap(ctx, I.clip(iv, 5))]
 
 
+def _interval_table(ctx, starts, stops):
+    from bionumpy.datatypes import Interval
+    return Interval(["c"] * len(starts), ctx.arr(starts, "int64"), ctx.arr(stops, "int64"))
+
+
+@reg("two_interval_sets", lambda V: _decl_iv(V, 3, 4))
+def _f_two_sets(ctx, x):
+    """binary operations on interval sets; the first set has nested / unsorted stops, the second is a sub-selection of it"""
+    from bionumpy.arithmetics import intervals as I
+    from bionumpy.arithmetics.similarity_measures import get_contingency_table
+    a = _interval_table(ctx, [x[f"s{i}"] for i in range(3)], [x[f"e{i}"] for i in range(3)])
+    b = _interval_table(ctx, [x["s0"], x["s2"]], [x["e0"], x["e2"]])
+    return [a, b], lambda: [ctx.lst(I.count_overlap(a, b)), ctx.lst(get_contingency_table(a, b, 4)), _snap(ctx, I.unique_intersect(a, b, 4))]
+
+
+@reg("interval_set_and_empty_set", lambda V: _decl_iv(V, 3, 4))
+def _f_set_and_empty(ctx, x):
+    """the same with an EMPTY second set (a chromosome on which one of the sets has no interval)"""
+    from bionumpy.arithmetics import intervals as I
+    from bionumpy.arithmetics.similarity_measures import get_contingency_table
+    a = _interval_table(ctx, [x[f"s{i}"] for i in range(3)], [x[f"e{i}"] for i in range(3)])
+    b = _interval_table(ctx, [], [])
+    return [a, b], lambda: [ctx.lst(I.count_overlap(a, b)), ctx.lst(I.count_overlap(b, a)), ctx.lst(get_contingency_table(a, b, 4))]
+
+
 @reg("mask_pileup", lambda V: _decl_iv(V, 2, 4))
 def _f_mask_pileup(ctx, x):
     from bionumpy.arithmetics import intervals as I
@@ -326,7 +351,7 @@ class ChunkFields(Harness):
 
     def skeletons(self, tier, seed):
         return [dict(kind=k, mode=m) for k in ("bed12", "bed6", "fastq", "vcf")
-                for m in ("write_read_write", "read_twice", "read_replace_write", "slice_write_read_parent")
+                for m in ("write_read_write", "read_twice", "read_replace_write", "slice_write_read_parent", "read_copy_read")
                 if not (k in ("fastq", "vcf") and m == "read_replace_write")]
 
     def _file(self, skel, x):
@@ -414,6 +439,14 @@ class ChunkFields(Harness):
             again = chunk[:]
             res["f2"] = {nm: _snap(ctx, getattr(again, nm)) for nm in names if res["f1"][nm] != "unnormalised"}
             res["f1"] = {k: v for k, v in res["f1"].items() if v != "unnormalised"}
+        elif skel["mode"] == "read_copy_read":
+            # the chunk's fields are read; a replace() copy (one field set to the value it already has) is made and ITS fields are read:
+            # the values held by the chunk itself must not move
+            res["f1"] = read_all()
+            copy = replace(chunk, **{names[-1]: getattr(chunk, names[-1])})
+            res["fc"] = {nm: _snap(ctx, getattr(copy, nm)) for nm in names if res["f1"][nm] != "unnormalised"}
+            res["f2"] = {k: v for k, v in read_all().items() if v != "unnormalised"}
+            res["f1"] = {k: v for k, v in res["f1"].items() if v != "unnormalised"}
         elif skel["mode"] == "slice_write_read_parent":
             # writing a slice that does not start at row 0 must not disturb the chunk it was taken from
             fresh = NpDataclassReader(NumpyFileReader(ctx.file(self._file(skel, x)), B), lazy=True).read()
@@ -441,6 +474,9 @@ class ChunkFields(Harness):
             return z_and(conj) if ok else False
         if skel["mode"] == "read_twice":
             ok = P._eq(out["f1"], out["f2"], conj)
+            return z_and(conj) if ok else False
+        if skel["mode"] == "read_copy_read":
+            ok = P._eq(out["f1"], out["f2"], conj) and P._eq(out["f1"], out["fc"], conj)
             return z_and(conj) if ok else False
         if skel["mode"] == "slice_write_read_parent":
             ok = P._eq(out["f1"], out["f2"], conj) and P._eq(out["w1"], out["w2"], conj)
@@ -485,6 +521,11 @@ class ChunkFields(Harness):
         if skel["mode"] == "read_twice":
             from vlib.job import same
             return None if same(cout["f1"], cout["f2"]) else f"chunk of {text!r}: fields parsed twice differ: {cout['f1']} vs {cout['f2']}"
+        if skel["mode"] == "read_copy_read":
+            from vlib.job import same
+            if not same(cout["f1"], cout["f2"]):
+                return f"chunk of {text!r}: fields {cout['f1']}; after the fields of a replace() copy were read the chunk's own fields read {cout['f2']}"
+            return None if same(cout["f1"], cout["fc"]) else f"chunk of {text!r}: fields {cout['f1']}, fields of a replace() copy with unchanged values {cout['fc']}"
         if skel["mode"] == "slice_write_read_parent":
             from vlib.job import same
             if not same(cout["f1"], cout["f2"]):
